@@ -1494,13 +1494,14 @@ func (up4 *UP4) removeStaleGTPTunnelPeers(far far) error {
 }
 
 func (up4 *UP4) sendDelete(deleted PacketForwardingRules) error {
+	if err := up4.modifyUP4ForwardingConfiguration(deleted.pdrs, deleted.fars, deleted.qers, p4.Update_DELETE); err != nil {
+		return err
+	}
+
+	// the counter cells are free only once the entries carrying them are gone
 	for i := range deleted.pdrs {
 		up4.releaseCounterID(preQosCounterID,
 			uint64(deleted.pdrs[i].ctrID))
-	}
-
-	if err := up4.modifyUP4ForwardingConfiguration(deleted.pdrs, deleted.fars, deleted.qers, p4.Update_DELETE); err != nil {
-		return err
 	}
 
 	up4.resetMeters(deleted.qers)
